@@ -108,6 +108,8 @@ pub fn run() {
     let mut prog_id = String::new();
     let mut idx = 0usize;
     for line in stdin.lock().lines() {
+        // a main thread stuck for good (a receive on the wrong socket, say) ends the process instead of outlasting the caller
+        unsafe { libc::alarm(120) };
         let line = line.unwrap();
         let t: Vec<&str> = line.split_whitespace().collect();
         if t.is_empty() {
